@@ -192,6 +192,12 @@ def ladder(ctx, L):
             return c['composite'] and c.get('kind', 'struct') == 'struct'
         if s == 'codec_kind.is_union(type(rhs))':
             return c['composite'] and c.get('kind', 'struct') == 'union'
+        if s in ('lhs is None', 'getattr(self, name) is None'):
+            return c['none_dst']        # the destination's getter returns None for an optional composite after clear()
+        if s in ('lhs is not None', 'getattr(self, name) is not None'):
+            return not c['none_dst']
+        if s in ('lhs', 'getattr(self, name)'):
+            return not c['none_dst']
         if isinstance(t, ast.Constant):
             return bool(t.value)
         if isinstance(t, ast.BoolOp):
